@@ -129,11 +129,8 @@ func (e *Explorer) account(x *Exec, count bool) {
 			}
 		}
 	}
-	if x.Verdict == VHorizon {
-		if count {
-			e.Stats.HorizonHits++
-		}
-		return
+	if x.Verdict == VHorizon && count {
+		e.Stats.HorizonHits++
 	}
 	if x.Verdict != VOK {
 		e.report(x)
